@@ -191,3 +191,18 @@ contract("esutil.sfile.SFile._make_header#text", runtime_name="esutil.sfile.SFil
          },
          inline_calls=["esutil.sfile.SFile._remove_byteorder"],
          props=["C04"], runtime=False)
+
+
+# ------------------------------------------------------------------------------------------------ first write through a handle (C03)
+contract("records.Records.write_header_and_update_offset", params=dict(self=_REC, text="opaque"), assumed=True, lang="c++", runtime=False,
+         why_assumed="C++ (records.cpp): writes the header text at the start of the file and records where the rows begin; the bytes "
+                     "are decided by the bounded round-trip oracle",
+         props=["C03"])
+
+contract("esutil.sfile.SFile._write_header#create", runtime_name="esutil.sfile.SFile._write_header",
+         params=dict(self="obj:SFile{_hdr:none,_dtype:none,_size:int,_delim:none,_robj:%s}" % _RECF, data="sstruct[a:int,b:int]", header="none"),
+         ensures={"the-creating-handle-remembers-what-it-wrote: header, row count and the dtype that later chunks are checked against":
+                  "self._hdr is not None and self._size == len(data) and self._dtype is not None and self._dtype == data.dtype"},
+         modifies=["self"],
+         inline_calls=["esutil.sfile.SFile._make_header", "esutil.sfile.SFile._get_size_string"],
+         props=["C03"], runtime=False)
